@@ -18,6 +18,7 @@ Record case := {
   c_parse : list (nat * bytes * option N);        (* strconv.ParseFloat on every candidate text *)
   c_keys : list value;                            (* the caller's keys, in AddKey order *)
   c_add : option nat;                             (* observed: index of the first key AddKey rejected *)
+  c_mapadd : option bool;                         (* observed (pointer keys): AddAllMapKeys over a map keyed by all the keys returned an error *)
   c_ids : bytes;                                  (* observed EncodeQueryParams() (only when every key was added) *)
   c_probes : list (value * option value);         (* observed LocateOriginalKey *)
   c_replies : list (list (bfield * list (bytes * option N)) * option (obs_map * obs_map * obs_map))
@@ -106,6 +107,9 @@ Section Model.
   Definition check_case : bool :=
     let (s, failed) := model_set in
     onat_eqb failed (c_add c) &&
+    (* set.go:55-63 AddAllMapKeys = the fold of AddKey over the map's keys in iteration order; whether it fails does not depend on
+       the order (add_all_none_perm) *)
+    match c_mapadd c with None => true | Some b => Bool.eqb b (match failed with Some _ => true | None => false end) end &&
     match failed with
     | Some _ => true
     | None =>
